@@ -503,7 +503,7 @@ class GeoPolygon(PolygonBase, SimpleShapeMixin):
         if len(rings) > 1:
             holes = [GeoPolygon(ring) for ring in rings[1:]]
 
-        properties = gjson.get('properties', {})
+        properties = dict(gjson.get('properties') or {})
         dt = get_dt_from_geojson_props(
             properties,
             time_start_property,
@@ -1493,7 +1493,7 @@ class GeoLineString(SingleShapeBase, LineLikeMixin, SimpleShapeMixin):
             Coordinate(**dict(zip(('longitude', 'latitude', 'z'), x)))
             for x in geom.get('coordinates', [])
         ]
-        properties = gjson.get('properties', {})
+        properties = dict(gjson.get('properties') or {})
         dt = get_dt_from_geojson_props(
             properties,
             time_start_property,
@@ -1734,7 +1734,7 @@ class GeoPoint(SingleShapeBase, PointLikeMixin, SimpleShapeMixin):
             )
 
         coord = Coordinate(**dict(zip(('longitude', 'latitude', 'z'), geom['coordinates'])))
-        properties = gjson.get('properties', {})
+        properties = dict(gjson.get('properties') or {})
         dt = get_dt_from_geojson_props(
             properties,
             time_start_property,
